@@ -48,6 +48,9 @@ def check_record(text, r):
     if r["obs"] in ("timeout", "panic", "exit", "harness-error"):
         return (r["obs"], "front end %s: %s" % (r["obs"], (r.get("detail") or "")[:200]))
     if r["obs"] == "tree":
+        if r.get("lexerr"):
+            return ("accepted-untokenisable", "accepted with a tree although the text does not tokenise (lexer error %s at %s): the tree stands for a part of the text only"
+                    % (r["lexerr"].get("code"), r["lexerr"].get("cursor")))
         wf = c03.well_formed(r["tree"])
         return ("half-built-tree", "accepted, but the tree is incomplete: %s" % wf) if wf else None
     if r["obs"] != "syntax-error":
@@ -102,6 +105,15 @@ def run(ctx):
         cases.append(dict(id=len(cases), text=t)); meta.append(("chars", t))
     for t in alt_texts:
         cases.append(dict(id=len(cases), text=t)); meta.append(("chars-alt", t))
+    # every comment form directly followed by a token that does not tokenise / an illegal indentation (the look-ahead past a comment)
+    comments = ["// c\n", "/* c */", "/* c\nd */\n", "/* c */\n", "注：c\n", "注：“c\nd”\n", "注1：c\n", "令A = 1 // c\n", "令A = 1 /* c */ ", "（显示：1） 注：c\n"]
+    bads = ["“abc", "`abc", "\x01", "令B = “x", "  令B = 1", " \t令B = 1", "』", "@@", "令B = 1 “", "令B = `x", "《未完", "令B = 1\n   令C = 2"]
+    for pre in ("", "令Z = 0\n", "如果真：\n    "):
+        for cm in comments:
+            for bad in bads:
+                for post in ("", "\n令Y = 2\n"):
+                    tx = pre + cm.replace("\n", "\n    " if pre.startswith("如果") else "\n") + bad + post
+                    cases.append(dict(id=len(cases), text=tx)); meta.append(("after-comment", tx))
     seen = set()
     for v in muts:
         k = (v["id"], tuple(v["out"]))
@@ -174,7 +186,7 @@ def run(ctx):
                     "punctuation, operators, one-character keywords, 注, control characters, NUL) and a TLC-seeded 1/30 (thorough: all 1.7M) of length 4; every single token "
                     "deletion / duplication / swap of %d grammar-covering programs (TLC layout machine, Mutate) and every prefix (truncation at every character offset) of a sample "
                     "of those mutants; the short texts also as input-variable text. Each input is parsed in a worker process with a 3 s watchdog and its error rendered: exactly one "
-                    "outcome; a syntax error has code 20..27, 0 <= cursor <= length and a report that quotes a physical line of the source; an accepted tree is complete. All "
+                    "outcome; a syntax error has code 20..27, 0 <= cursor <= length and a report that quotes a physical line of the source; an accepted tree is complete and the accepted text tokenises from its first to its last character (the lexer alone). All "
                     "records are checked by the Python mirror of ZnFront!OutcomeOK; %d records (all texts <= 3, a sample of the rest, accepted mutant trees) are validated by "
                     "TLC against Trace_ZnFront" % (len(progs), nlines),
                outcome_counts=outcomes, char_texts=len(texts), mutants=len(mtexts), truncations=len(tcases), varinput_texts=len(vcases))
